@@ -225,7 +225,7 @@ class Application:
         logger.info(f"{self} application started")
 
     def stop(self):
-        for waiting in self._answer_waiting.values():
+        for waiting in list(self._answer_waiting.values()):
             waiting.event.set()
         logger.info(f"{self} application stopped")
 
